@@ -29,9 +29,9 @@ fn es(e: dryoc::Error) -> String { format!("{:?}", e) }
 pub fn generichash(msg: &[u8], key: &[u8], outlen: usize) -> (Impls, Option<Vec<u8>>) {
     let k = if key.is_empty() { None } else { Some(key) };
     let mut v: Impls = vec![];
-    v.push(("crypto_generichash".into(), { let mut o = vec![0u8; outlen]; cg::crypto_generichash(&mut o, msg, k).map(|_| o).map_err(es) }));
+    v.push(("crypto_generichash".into(), { let mut o = vec![0xA5u8; outlen]; cg::crypto_generichash(&mut o, msg, k).map(|_| o).map_err(es) }));
     v.push(("crypto_generichash_init/update/final".into(), (|| { let mut st = cg::crypto_generichash_init(k, outlen).map_err(es)?; cg::crypto_generichash_update(&mut st, msg);
-        let mut o = vec![0u8; outlen]; cg::crypto_generichash_final(st, &mut o).map_err(es)?; Ok(o) })()));
+        let mut o = vec![0x5Au8; outlen]; cg::crypto_generichash_final(st, &mut o).map_err(es)?; Ok(o) })()));
     if outlen == 32 && key.len() == 32 {
         v.push(("GenericHash<32,32>::hash_to_vec".into(), dryoc::generichash::GenericHash::<32, 32>::hash_to_vec(&msg.to_vec(), Some(&a32(key))).map_err(es)));
     }
@@ -66,7 +66,7 @@ pub fn generichash(msg: &[u8], key: &[u8], outlen: usize) -> (Impls, Option<Vec<
 }
 pub fn sha512(msg: &[u8]) -> (Impls, Option<Vec<u8>>) {
     let mut v: Impls = vec![];
-    v.push(("crypto_hash_sha512".into(), { let mut o = [0u8; 64]; ch::crypto_hash_sha512(&mut o, msg); Ok(o.to_vec()) }));
+    v.push(("crypto_hash_sha512".into(), { let mut o = [0xA5u8; 64]; ch::crypto_hash_sha512(&mut o, msg); Ok(o.to_vec()) }));
     v.push(("Sha512::compute_to_vec".into(), Ok(dryoc::sha512::Sha512::compute_to_vec(msg))));
     {
         use dryoc::sha512::Sha512;
@@ -83,7 +83,7 @@ pub fn sha512(msg: &[u8]) -> (Impls, Option<Vec<u8>>) {
 }
 pub fn auth(key: &[u8; 32], msg: &[u8]) -> (Impls, Option<Vec<u8>>) {
     let mut v: Impls = vec![];
-    v.push(("crypto_auth".into(), { let mut o = [0u8; 32]; ca::crypto_auth(&mut o, msg, key); Ok(o.to_vec()) }));
+    v.push(("crypto_auth".into(), { let mut o = [0xA5u8; 32]; ca::crypto_auth(&mut o, msg, key); Ok(o.to_vec()) }));
     v.push(("Auth::compute_to_vec".into(), Ok(dryoc::auth::Auth::compute_to_vec(*key, &msg.to_vec()))));
     {
         use dryoc::auth::Auth;
@@ -99,7 +99,7 @@ pub fn auth(key: &[u8; 32], msg: &[u8]) -> (Impls, Option<Vec<u8>>) {
 }
 pub fn onetimeauth(key: &[u8; 32], msg: &[u8]) -> (Impls, Option<Vec<u8>>) {
     let mut v: Impls = vec![];
-    v.push(("crypto_onetimeauth".into(), { let mut o = [0u8; 16]; co::crypto_onetimeauth(&mut o, msg, key); Ok(o.to_vec()) }));
+    v.push(("crypto_onetimeauth".into(), { let mut o = [0xA5u8; 16]; co::crypto_onetimeauth(&mut o, msg, key); Ok(o.to_vec()) }));
     v.push(("OnetimeAuth::compute_to_vec".into(), Ok(dryoc::onetimeauth::OnetimeAuth::compute_to_vec(*key, &msg.to_vec()))));
     {
         use dryoc::onetimeauth::OnetimeAuth;
@@ -115,21 +115,21 @@ pub fn onetimeauth(key: &[u8; 32], msg: &[u8]) -> (Impls, Option<Vec<u8>>) {
 }
 pub fn shorthash(key: &[u8; 16], msg: &[u8]) -> (Impls, Option<Vec<u8>>) {
     let mut v: Impls = vec![];
-    v.push(("crypto_shorthash".into(), { let mut o = [0u8; 8]; csh::crypto_shorthash(&mut o, msg, key); Ok(o.to_vec()) }));
+    v.push(("crypto_shorthash".into(), { let mut o = [0xA5u8; 8]; csh::crypto_shorthash(&mut o, msg, key); Ok(o.to_vec()) }));
     let mut r = vec![0u8; 8];
     unsafe { so::crypto_shorthash(r.as_mut_ptr(), msg.as_ptr(), msg.len() as u64, key.as_ptr()) };
     (v, Some(r))
 }
 pub fn hsalsa(key: &[u8; 32], input: &[u8; 16], c: Option<[u8; 16]>) -> (Impls, Option<Vec<u8>>) {
     let mut v: Impls = vec![];
-    v.push(("crypto_core_hsalsa20".into(), { let mut o = [0u8; 32]; cc::crypto_core_hsalsa20(&mut o, input, key, c.map(words)); Ok(o.to_vec()) }));
+    v.push(("crypto_core_hsalsa20".into(), { let mut o = [0xA5u8; 32]; cc::crypto_core_hsalsa20(&mut o, input, key, c.map(words)); Ok(o.to_vec()) }));
     let mut r = vec![0u8; 32];
     unsafe { so::crypto_core_hsalsa20(r.as_mut_ptr(), input.as_ptr(), key.as_ptr(), c.as_ref().map(|x| x.as_ptr()).unwrap_or(std::ptr::null())) };
     (v, Some(r))
 }
 pub fn hchacha(key: &[u8; 32], input: &[u8; 16], c: Option<[u8; 16]>) -> (Impls, Option<Vec<u8>>) {
     let mut v: Impls = vec![];
-    v.push(("crypto_core_hchacha20".into(), { let mut o = [0u8; 32]; cc::crypto_core_hchacha20(&mut o, input, key, c.map(words)); Ok(o.to_vec()) }));
+    v.push(("crypto_core_hchacha20".into(), { let mut o = [0xA5u8; 32]; cc::crypto_core_hchacha20(&mut o, input, key, c.map(words)); Ok(o.to_vec()) }));
     let mut r = vec![0u8; 32];
     unsafe { so::crypto_core_hchacha20(r.as_mut_ptr(), input.as_ptr(), key.as_ptr(), c.as_ref().map(|x| x.as_ptr()).unwrap_or(std::ptr::null())) };
     (v, Some(r))
@@ -144,7 +144,7 @@ pub fn increment(b: &[u8]) -> (Impls, Option<Vec<u8>>) {
 }
 pub fn kdf(outlen: usize, id: u64, ctx: &[u8; 8], key: &[u8; 32]) -> (Impls, Option<Vec<u8>>) {
     let mut v: Impls = vec![];
-    v.push(("crypto_kdf_derive_from_key".into(), { let mut o = vec![0u8; outlen]; ck::crypto_kdf_derive_from_key(&mut o, id, ctx, key).map(|_| o).map_err(es) }));
+    v.push(("crypto_kdf_derive_from_key".into(), { let mut o = vec![0xC3u8; outlen]; ck::crypto_kdf_derive_from_key(&mut o, id, ctx, key).map(|_| o).map_err(es) }));
     if outlen == 32 {
         let k: dryoc::kdf::Kdf<StackByteArray<32>, StackByteArray<8>> = dryoc::kdf::Kdf::from_parts(StackByteArray::from(key), StackByteArray::from(ctx));
         v.push(("Kdf::derive_subkey_to_vec".into(), k.derive_subkey_to_vec(id).map_err(es)));
@@ -189,7 +189,7 @@ pub fn argon2_bytes(ty: u64, pwd: &[u8], salt: &[u8], t: u64, memlimit: usize, o
     let mkib = (memlimit / 1024) as u64;
     let alg = if ty == 1 { cp::PasswordHashAlgorithm::Argon2i13 } else { cp::PasswordHashAlgorithm::Argon2id13 };
     let mut v: Impls = vec![];
-    v.push(("crypto_pwhash".into(), match catch(|| { let mut o = vec![0u8; outlen]; cp::crypto_pwhash(&mut o, pwd, salt, t, memlimit, alg).map(|_| o).map_err(es) }) { Ok(r) => r, Err(p) => Err(format!("PANIC {}", p)) }));
+    v.push(("crypto_pwhash".into(), match catch(|| { let mut o = vec![0x3Cu8; outlen]; cp::crypto_pwhash(&mut o, pwd, salt, t, memlimit, alg).map(|_| o).map_err(es) }) { Ok(r) => r, Err(p) => Err(format!("PANIC {}", p)) }));
     // libsodium: 16-byte salts only; Argon2i needs t >= 3; outlen >= 16
     let mut r = vec![0u8; outlen];
     let ok = salt.len() == 16 && outlen >= 16 && !(ty == 1 && t < 3) && mkib >= 8;
